@@ -81,6 +81,7 @@ const (
 	roleInput
 	roleCallerBuf
 	roleUser
+	roleOwn // an object of the callee's own (encoder state, writer): writable
 )
 
 type EngineB struct {
@@ -133,6 +134,11 @@ func NewEngineB(p *Program, entry *ssa.Function, roles map[int]paramRole) *Engin
 			e.set(par, Loc{e.callerBuf, ""})
 		case roleUser:
 			e.set(par, Loc{e.user, ""})
+		case roleOwn:
+			o := e.obj("Param:"+par.Name(), oAlloc, nil, nil)
+			o.collapsed = true
+			e.contents[Loc{o, ""}] = locset{Loc{o, ""}: true}
+			e.set(par, Loc{o, ""})
 		}
 	}
 	e.addFunc(entry)
